@@ -225,28 +225,46 @@ def run(db: DB, rep: Report) -> None:
                   "the instance count stored for a level (%s) depends on %s, which is not assigned on every "
                   "path of the current level's iteration: a level can inherit the count of the level "
                   "processed before it" % (norm(st.value), ", ".join(stale) or "?"))
-    # hop 1: __build_level passes tree["num"] to __build_component
-    tree_param = bl.call_params[0]
-    calls = [n for n in walk_no_nested(bl.node) if isinstance(n, ast.Call) and
-             isinstance(n.func, ast.Attribute) and n.func.attr == "__build_component"]
-    ok = bool(calls) and all(len(n.args) >= 2 and norm(n.args[1]) in
-                             ("%s['num']" % tree_param,) for n in calls)
-    rep.check("M3", ok, db.loc(bl.node), bl.short, "hop:level->component",
-              "__build_level passes %s['num'] to __build_component" % tree_param,
-              "Hardware.__build_level does not hand the level's instance count (tree['num']) "
-              "unmodified to __build_component")
-    # hop 2: __build_component passes its parameter as second constructor argument
-    num_param = bc.call_params[1]
-    ctor_calls = [n for n in walk_no_nested(bc.node) if isinstance(n, ast.Call) and
-                  isinstance(n.func, ast.Name) and db.local_types(bc).get(n.func.id, ("",))[0] == "type"]
-    ok = bool(ctor_calls) and all(len(n.args) >= 2 and isinstance(n.args[1], ast.Name) and
-                                  n.args[1].id == num_param for n in ctor_calls)
+    # hop 2 (looked at first: it tells which parameter carries the count): __build_component passes
+    # one of its parameters, unchanged, as the constructor's second argument (num_instances)
+    def _comp_ctor(n) -> bool:
+        if not (isinstance(n, ast.Call) and isinstance(n.func, ast.Name) and len(n.args) >= 2):
+            return False
+        lt = db.local_types(bc).get(n.func.id)
+        if lt is not None and lt[0] == "type":
+            return True
+        # the class was chosen through a table / helper: a local called like a constructor
+        return n.func.id not in bc.module.ns and any(
+            isinstance(x, ast.Name) and isinstance(x.ctx, ast.Store) and x.id == n.func.id
+            for x in walk_no_nested(bc.node))
+    ctor_calls = [n for n in walk_no_nested(bc.node) if _comp_ctor(n)]
+    nums = {n.args[1].id for n in ctor_calls if isinstance(n.args[1], ast.Name) and n.args[1].id in bc.call_params}
+    ok = bool(ctor_calls) and len(nums) == 1 and all(isinstance(n.args[1], ast.Name) and n.args[1].id in nums
+                                                     for n in ctor_calls)
+    num_param = next(iter(nums)) if len(nums) == 1 else bc.call_params[1]
     stores = [n for n in walk_no_nested(bc.node) if isinstance(n, ast.Name) and
               isinstance(n.ctx, ast.Store) and n.id == num_param]
     rep.check("M3", ok and not stores, db.loc(bc.node), bc.short, "hop:component-ctor",
               "__build_component passes '%s' unchanged as the constructor's second argument" % num_param,
               "Hardware.__build_component modifies or does not pass the instance count to the "
-              "component constructor")
+              "component constructor", decided=bool(ctor_calls))
+    # hop 1: __build_level passes tree["num"] for that parameter
+    tree_param = bl.call_params[0]
+    calls = [n for n in walk_no_nested(bl.node) if isinstance(n, ast.Call) and
+             isinstance(n.func, ast.Attribute) and n.func.attr == "__build_component"]
+    k_num = bc.call_params.index(num_param) if num_param in bc.call_params else 1
+
+    def _num_arg(n: ast.Call):
+        for kw in n.keywords:
+            if kw.arg == num_param:
+                return kw.value
+        return n.args[k_num] if k_num < len(n.args) else None
+    ok = bool(calls) and all(_num_arg(n) is not None and
+                             paths.flow_text(_num_arg(n), n, bl.node) == "%s['num']" % tree_param for n in calls)
+    rep.check("M3", ok, db.loc(bl.node), bl.short, "hop:level->component",
+              "__build_level passes %s['num'] to __build_component" % tree_param,
+              "Hardware.__build_level does not hand the level's instance count (tree['num']) "
+              "unmodified to __build_component")
     # hop 3: every Component subclass forwards num_instances unchanged
     comp = db.cls("teaal.ir.component.Component")
     base_init = comp.methods["__init__"]
@@ -331,13 +349,23 @@ def run(db: DB, rep: Report) -> None:
     rep.rule("M8", "a traffic path lists its memories by depth, whatever the order of sibling levels", 1)
     _check_traffic_path_order(db, rep)
     hinit = hw.methods["__init__"]
+    def _cfg_target(n: ast.For):
+        """the loop variable that names the configuration: `for c in spec[...]` or
+        `for c, roots in spec[...].items()`"""
+        if isinstance(n.target, ast.Name):
+            return n.target.id
+        if isinstance(n.target, ast.Tuple) and len(n.target.elts) == 2 and isinstance(n.target.elts[0], ast.Name) \
+                and isinstance(n.iter, ast.Call) and isinstance(n.iter.func, ast.Attribute) and \
+                n.iter.func.attr == "items":
+            return n.target.elts[0].id
+        return None
     cfg_loops = [n for n in walk_no_nested(hinit.node) if isinstance(n, ast.For) and
-                 isinstance(n.target, ast.Name) and "architecture" in norm(n.iter) and
+                 _cfg_target(n) is not None and "architecture" in paths.flow_text(n.iter, n, hinit.node) and
                  any(isinstance(x, ast.Call) and isinstance(x.func, ast.Attribute) and
                      x.func.attr == "__build_level" for x in ast.walk(n))]
     if len(cfg_loops) != 1:
         raise AnalysisError("per-configuration loop of Hardware.__init__ not found")
-    cfg_var = cfg_loops[0].target.id
+    cfg_var = _cfg_target(cfg_loops[0])
 
     def cfg_bound(e: ast.AST, g: FuncInfo, seen=frozenset()) -> bool:
         """does expression e denote the configuration being built?  (recursive
@@ -373,8 +401,11 @@ def run(db: DB, rep: Report) -> None:
                 if not (isinstance(b, ast.Attribute) and norm(b.value) == "self"):
                     continue
                 vt = db.type_of(n.value, g)
-                if not (vt and vt[0] == "cls" and db.classes.get(vt[1]) is not None and
-                        comp in db.classes[vt[1]].mro()):
+                # typed as a Component, or (class chosen through a table: type unknown) filed
+                # under its own get_name()
+                by_name = norm(chain[0]) == norm(n.value) + ".get_name()"
+                if not ((vt and vt[0] == "cls" and db.classes.get(vt[1]) is not None and
+                         comp in db.classes[vt[1]].mro()) or by_name):
                     continue
                 n_store += 1
                 table_field = b.attr
@@ -401,10 +432,27 @@ def run(db: DB, rep: Report) -> None:
             b = b.value
         first = chain[-1]
         ok = ok and len(chain) >= 2 and gcs.call_params[0] in paths.load_names(first)
-    rep.check("M7", ok, db.loc(gcs.node), gcs.short, "component-table-read",
+    via_helper = False
+    if not reads:
+        # the table is read in a private helper that is handed the Einsum: self.__h(einsum)[name]
+        for cl in [n for n in ast.walk(gcs.node) if isinstance(n, ast.Call) and isinstance(n.func, ast.Attribute)
+                   and isinstance(n.func.value, ast.Name) and n.func.value.id == "self"]:
+            h_ = hw.methods.get(cl.func.attr)
+            if h_ is None or not h_.call_params:
+                continue
+            hreads = [n for n in walk_no_nested(h_.node) if isinstance(n, ast.Subscript) and
+                      isinstance(n.ctx, ast.Load) and norm(n).startswith("self.%s[" % table_field) and
+                      not isinstance(n.parent, ast.Subscript)]
+            for r_ in hreads:
+                first = r_.slice
+                for k_, p_ in enumerate(h_.call_params):
+                    if p_ in paths.load_names(first) and k_ < len(cl.args) and \
+                            gcs.call_params[0] in paths.load_names(cl.args[k_]):
+                        via_helper = True
+    rep.check("M7", ok or via_helper, db.loc(gcs.node), gcs.short, "component-table-read",
               "get_components(einsum, ...) selects the table of the Einsum's configuration",
               "Hardware.get_components does not select the component through the configuration of its "
-              "'%s' argument" % gcs.call_params[0])
+              "'%s' argument" % gcs.call_params[0], decided=ok or via_helper or bool(reads))
 
     # ---- M4 ------------------------------------------------------------------
     rep.rule("M4", "roll-up runs after every registering builder, on the last Einsum only", 2)
